@@ -202,7 +202,9 @@ func c18(r *vc.Run) int {
 		eval(total, free, min)
 	}
 
+	proc := c18Process(r)
 	cov := map[string]any{
+		"process_level":       proc,
 		"evaluations":         evals,
 		"distinct_nontrivial": len(nontrivial),
 		"rule":                "boundary grid (20 totals x 16 settings x {floor,ceil of exact threshold} x 7 deltas) + seeded random triples with free <= total < 2^63; non-trivial = distinct (total, free, min) with free within 4096 bytes of the exact threshold",
@@ -214,5 +216,6 @@ func c18(r *vc.Run) int {
 		"reference = exact rational arithmetic (math/big) written from the property statement",
 		"free <= total < 2^63 (beyond that Go's float->uint64 conversion is implementation-defined and no volume is that large)",
 		"NaN / negative / zero --min-space-required count as 'not given'",
+		"process level: the real CheckDiskUsage on the scratch volume (cases within 256 MiB of the threshold are skipped: other processes write to the volume), the refusal to start judged by exit status 1 and message, the real WatchDiskSpace (40 ms interval) pausing and resuming real stage workers when the setting crosses the free space (plain build; one word-sized store into live configuration)",
 	}, 100)
 }
